@@ -113,6 +113,14 @@ def gen_breaks(rng, kind, nc):
     if kind == 'random':
         a = rng.uniform(-2, 2)
         w = np.array([rng.uniform(0.15, 1.0) for _ in range(nc)])
+        r_ = rng.random()
+        if r_ < 0.12:
+            # nearly equidistant: cell sizes equal to within 1e-6 .. 1e-9 relative (must NOT be treated as equidistant)
+            w = 0.5 * (1 + 10.0 ** -rng.randint(6, 9) * np.array([rng.uniform(-1, 1) for _ in range(nc)]))
+        elif r_ < 0.24:
+            # a strongly graded grid on a tiny or a huge length scale, possibly far from the origin
+            sc = rng.choice([1e-8, 1e-6, 1e5])
+            return rng.choice([0.0, a, 2e4 * sc]) + sc * np.concatenate([[0.0], np.cumsum(w)])
         return a + np.concatenate([[0.0], np.cumsum(w)])
     raise ValueError(kind)
 
@@ -796,8 +804,12 @@ def reuse_sequences(chk):
         try:
             itp = SplineInterpolator1D(sp.basis, dtype) if cplx else SplineInterpolator1D(sp.basis)
             spl = Spline1D(sp.basis, dtype) if cplx else Spline1D(sp.basis)
+            buf = np.zeros(sp.nb, dtype=dtype)          # ONE data array, re-filled in place before every call (a work array of the caller)
             for k, u in enumerate(seq):
                 u = u.astype(dtype) * ((1 + 0.5j) if cplx else 1)
+                if k % 2 == 1 or k >= 4:
+                    buf[:] = u
+                    u = buf
                 if k in (1, 2):
                     # a query between two interpolations: asking for the quadrature weights may not change what the interpolator does
                     itp.get_quadrature_coefficients()
@@ -809,6 +821,18 @@ def reuse_sequences(chk):
                              '(e.g. zero data after non-zero data)' % k, {'space': sp.desc(), 'call': k, 'data': [complex(x) if cplx else float(x) for x in u]},
                              actual=[complex(v) if cplx else float(v) for v in vals])
                     break
+            # element types of the data: single precision (real / complex) values are exact doubles; the interpolant must take them
+            for dt_ in ((np.complex64, np.float32) if cplx else (np.float32,)):
+                u = (gen_data(rng, sp.nb, 'normal') * ((1 + 0.5j) if cplx else 1)).astype(dt_ if (cplx or dt_ == np.float32) else float)
+                if dt_ == np.float32 and cplx:
+                    u = gen_data(rng, sp.nb, 'normal').astype(np.float32)
+                itp.compute_interpolant(u, spl)
+                vals = np.array([spl.eval(float(x)) for x in xs])
+                ref = u.astype(complex if cplx else float)
+                if not np.all(np.abs(vals - ref) <= 1e-6 * float(np.abs(ref).max()) * sp.nb):
+                    chk.fail('C08:data-dtype', 'data given as %s: the interpolant does not take the data values' % np.dtype(dt_).name,
+                             {'space': sp.desc(), 'dtype': np.dtype(dt_).name, 'data': [complex(x) if cplx else float(x) for x in ref]},
+                             actual=[complex(v) if cplx else float(v) for v in vals])
         except Exception as e:  # noqa: BLE001
             chk.fail('C08:reuse-raises', 'interpolating a sequence of data sets raised %s: %s' % (type(e).__name__, e), {'space': sp.desc()})
         chk.case(('reuse1d', it, per, cplx), nontrivial=True)
